@@ -206,6 +206,53 @@ def crossing_slice(ctx, tier, rng, run_one, entries=None, quick_n=800, thorough_
         ctx.cnt["crossing_scenarios:" + sc["crossing"]] += 1
 
 
+def judge_unobserved(ctx, sc, e):
+    """One scenario, one entry point: with the recording hooks attached and with nobody watching."""
+    import copy
+
+    from .. import oracles as O
+
+    sc2 = copy.deepcopy(sc)
+    sc2["no_hooks"] = True
+    ra, _, _ = rig.run(sc, e)
+    rb, _, _ = rig.run(sc2, e)
+    ctx.inc("runs", 2)
+    ctx.inc("calls", len(ra) + len(rb))
+    ctx.inc("unobserved_run_pairs")
+    keep = ("op", "sleep", "strategy", "srec")
+    for a, b in zip(ra, rb):
+        pa = [x for x in a.trace if x[0] in keep]
+        pb = [x for x in b.trace if x[0] in keep]
+        fa, fb = O.canon_final(View(a, sc)), O.canon_final(View(b, sc2))
+        if [x[0] for x in pa] != [x[0] for x in pb] or [x for x in pa if x[0] == "sleep"] != [x for x in pb if x[0] == "sleep"] or fa != fb:
+            d = next((i for i, (x, y) in enumerate(zip(pa, pb)) if x != y), min(len(pa), len(pb)))
+            ctx.viol("behaviour-depends-on-being-observed", f"[{e} call#{a.idx}] with hooks attached: {len([x for x in pa if x[0] == 'op'])} invocations, delivered {fa}; "
+                     f"with nobody watching: {len([x for x in pb if x[0] == 'op'])} invocations, delivered {fb}; first difference at step {d}: {pa[d:d + 1]} vs {pb[d:d + 1]}",
+                     payload(sc, e, a.idx))
+            return
+        if fa[0] in ("stopped", "exception"):
+            ctx.inc("unobserved_failed_runs_compared")
+
+
+def unobserved_slice(ctx, tier, rng, entries=None, quick_n=500, thorough_n=12000, per=3):
+    """Shared workload: the same scenario through the same entry point twice - once with the recording hooks attached, once with
+    nobody watching (no on_metric / on_log, no attempt hooks, no abort predicate, no timeline; short policies included, max_attempts=1
+    among them).  What the caller can see without hooks must not depend on them: the operation's invocations, the sleeps asked of the
+    sleeper, the strategy's calls and what is finally delivered.  (The observed run is the one the other oracles judge.)"""
+    n = (quick_n if tier == "quick" else thorough_n) // ctx.nshards
+    for k in range(n):
+        sc = gen.rand_scenario(rng, max_attempts=(1, 4), p_special=0.04, specials=("abort", "nested_exh", "cancel"), p_budget=0.2, p_handler=0.2, p_abort=0.0, ncalls=(1, 2), p_attempt_timeout=0.1,
+                               p_res_none=0.1)
+        sc["fault"] = None
+        sc["poll"] = False
+        sc["timeline"] = False
+        sc["place"]["hooks"] = "none"
+        if k % 3 == 0:
+            sc["place"]["before_sleep"] = "none"
+        for e in pick_entries(rng, entries or rig.ENTRIES, per):
+            judge_unobserved(ctx, sc, e)
+
+
 def crossing_floors(ctx, floors, n=60):
     for w_ in ("handler", "before_sleep", "record_failure"):
         floors["crossing_scenarios:" + w_] = (ctx.cnt["crossing_scenarios:" + w_], n)
